@@ -211,6 +211,21 @@ def gen_modgraph(rng, profile=None):
             if e["kind"] == "iface" or (pr["inner_uses"] and e["kind"] == "sub" and rng.random() < 0.35
                                         and not any(g.get("specific") == e["name"] for g in mod["ents"])):
                 e["uses"] = gen_uses([m["name"] for m in mods], visible, max_uses=2, min_uses=1 if mods else 0)
+                if e["kind"] == "sub" and mods and rng.random() < 0.35:
+                    # a use-associated name hides the host-associated entity of the same name: import an entity of
+                    # another module under a local name that the host already makes visible (same class)
+                    for cl in rng.sample(list(usemodel.CLASSES), len(usemodel.CLASSES)):
+                        hostnames = sorted(n for n in tables[name][cl] if not any(x["name"] == n for x in mod["ents"]))
+                        cands = [(mm["name"], r) for mm in mods for r, o in sorted(exports_of[mm["name"]][cl].items())]
+                        cands = [(mn, r) for mn, r in cands if r not in visible or True]
+                        if hostnames and cands:
+                            local = rng.choice(hostnames)
+                            mn, remote = rng.choice(cands)
+                            if exports_of[mn][cl][remote] != tables[name][cl][local] and \
+                                    not any(l == local for u in e["uses"] for l, _ in (u.get("only") or []) + (u.get("renames") or [])):
+                                e["uses"].append({"mod": mn, "only": [[local, remote]], "renames": [], "prefix": ""})
+                                e["shadows"] = local
+                            break
                 iimp = usemodel.imports(e["uses"], exports_of)
                 tcands = sorted(iimp["types"]) if e["kind"] == "iface" else sorted(set(iimp["types"]) | set(vis_types))
                 if tcands and rng.random() < 0.8:
@@ -241,6 +256,13 @@ def gen_modgraph(rng, profile=None):
             for e in ents:
                 if types and rng.random() < 0.6:
                     e["vtype"] = rng.choice(types)
+            if pr["inner_uses"] and mods and rng.random() < 0.4:
+                # a BLOCK construct with a USE of its own and a call through a name it imports
+                vis = {n for cl in usemodel.CLASSES for n in imp[cl]} | {e["name"] for e in ents}
+                buses = gen_uses([m["name"] for m in mods], vis, max_uses=1, min_uses=1)
+                bimp = usemodel.imports(buses, exports_of)
+                if buses:
+                    unit["block"] = {"uses": buses, "calls": rng.sample(sorted(bimp["procs"]), min(len(bimp["procs"]), 2))}
             progs.append(unit)
         for k in range(rng.randint(0, 2)):
             ename = "%sx%d" % (px, k)
@@ -420,6 +442,13 @@ def render_prog(p, rng):
         L.append("  %s :: %s !! %s" % (ty, e["name"], e["tr"]))
     for c in p["calls"]:
         L.append("  call %s()" % c)
+    if p.get("block"):
+        L.append("  block")
+        for u in p["block"]["uses"]:
+            L.append("    " + _use_line(rng, u))
+        for c in p["block"]["calls"]:
+            L.append("    call %s()" % c)
+        L.append("  end block")
     L.append("end program %s" % p["name"])
     return L
 
@@ -597,6 +626,12 @@ def normalize(world):
         unit["uses"] = fix_uses(unit["uses"])
         imp = usemodel.imports(unit["uses"], exports_of)
         unit["calls"] = [c for c in unit.get("calls", []) if c in imp["procs"]]
+        if unit.get("block"):
+            unit["block"]["uses"] = fix_uses(unit["block"]["uses"])
+            bimp = usemodel.imports(unit["block"]["uses"], exports_of)
+            unit["block"]["calls"] = [c for c in unit["block"]["calls"] if c in bimp["procs"]]
+            if not unit["block"]["uses"]:
+                del unit["block"]
         for e in unit.get("ents", []):
             if e.get("vtype") and e["vtype"] not in imp["types"]:
                 del e["vtype"]
@@ -659,6 +694,10 @@ def shrink_candidates(world):
                 w = cp()
                 w[key][i]["calls"] = []
                 yield "drop calls", normalize(w)
+            if m.get("block"):
+                w = cp()
+                del w[key][i]["block"]
+                yield "drop block", normalize(w)
             if m.get("pub_imports"):
                 w = cp()
                 w[key][i]["pub_imports"] = []
